@@ -169,8 +169,18 @@ def pResize : P String := do
   P.done
   pure (" ; ".intercalate ((labelsFor rows H W).map showNats))
 
+/-- `labelseq h w v.. | k H W ..` : the label map in force after calls with signals of these shapes -/
+def pLabelSeq : P String := do
+  let h ← P.nat; let w ← P.nat
+  let rows ← P.rep (P.rep P.nat w) h
+  bar
+  let shapes ← P.list (do let a ← P.nat; let b ← P.nat; pure (a, b))
+  P.done
+  pure (" ; ".intercalate ((cacheRun rows shapes).map showNats))
+
 def dispatch : List String → Option String
   | "kern" :: rest => (pKern.run rest).map (·.1)
+  | "labelseq" :: rest => (pLabelSeq.run rest).map (·.1)
   | "wrap" :: rest => (pWrap.run rest).map (·.1)
   | "resize" :: rest => (pResize.run rest).map (·.1)
   | "run" :: rest => (pRun.run rest).map (·.1)
